@@ -1,9 +1,10 @@
 #!/bin/sh
-# run every registered quick (or thorough) check once; usage: tools/runall.sh [quick|thorough] [seed]
+# run every registered quick (or thorough) check once; usage: tools/runall.sh [quick|thorough] [seed] ["Cxx Cyy ..."]
 cd "$(dirname "$0")/.."
 TIER="${1:-quick}"; export VERIF_SEED="${2:-1}"
 rc=0
-for p in C01 C02 C03 C04 C05 C06 C07 C08 C09 C10 C11 C12 C13 C14 C15 C16 C17 C18 C19 C20; do
+PROPS="${3:-C01 C02 C03 C04 C05 C06 C07 C08 C09 C10 C11 C12 C13 C14 C15 C16 C17 C18 C19 C20}"
+for p in $PROPS; do
   out=$(./check $p --tier $TIER 2>&1); code=$?
   echo "$out" | grep -v "^KNOWN-FINDING" | tail -3
   [ $code -ne 0 ] && { echo "  -> $p exit $code"; rc=1; }
